@@ -65,7 +65,9 @@ def run(ctx):
     rows = [(c['cls'], r) for c in table['classes'] for r in c['rows']]
     n_opaque = sum(1 for _, r in rows if r['kind'] == 'Opaque')
     ctx.coverage['table'] = {'classes_with_own_to_numpy': len(table['classes']), 'rows': len(rows), 'opaque_rows_dynamic_only': n_opaque,
-                             'inherits': table['inherits']}
+                             'inherits': table['inherits'], 'classes_not_analysed_statically': table['unanalysed']}
+    for k, why in table['unanalysed'].items():
+        ctx.notes.append('to_numpy of %s not understood by the translator (dynamic comparison only): %s' % (k, why))
     if not ctx.coq():
         ctx.broken_proof()
     model = vf.build_extracted('c16', 'C16', 'c16_driver.ml', conv=False)
